@@ -195,7 +195,7 @@ func oracleAlias(op *Sexp, res string) []string { return lastAliasOracle }
 func runC11(r *Runner, g *Gen, tier string) string {
 	n := scale(tier, 3000, 400000)
 	// the input of a decode is memory the TARGET holds (an envelope unwrapped in place); JSON-any values
-	for _, k := range []string{"bytes", "map"} {
+	for _, k := range []string{"bytes", "map", "blob"} {
 		r.Do(L(A("unwrap"), A(k)), true, "unwrap")
 	}
 	r.Do(L(A("jalias")), true, "jalias")
